@@ -9,7 +9,8 @@ RULE = ("blocks A(2 atoms) C(3, explicit exclusion) D(4-atom chain + constraint)
         "{0..4}^2 (A,D; n<=4) x bond-making link sets {bb},{bb,a_c},{gt},{bb,lt_sa},{bb,exl: explicit link exclusion} x all labelled connected residue graphs x all "
         "resname assignments; effective exclusion set of the built molecule (pairs within the molecule-wide nrexcl by BFS over the "
         "observed edges, plus explicit [ exclusions ]) must equal {1<=d(a,b)<=max(excl(block a), excl(block b))} U explicit block "
-        "exclusions; uniform inputs keep nrexcl and gain no exclusion; n<=2 also through the written .itp. non-trivial = mixed "
+        "exclusions; uniform inputs keep nrexcl and gain no exclusion; n<=2 also through the written .itp; plus sequences (<=3 tokens, thorough 4) over "
+        "A, D and a two-residue from_itp fragment M (4 atoms) joined by links, exclusion distances {1,2,3}^3 (thorough {0..3}^3). non-trivial = mixed "
         "exclusion distances and >=1 inter-residue bond")
 ASSUMPTIONS = ["consecutive atoms of angles/dihedrals are also bonded in the alphabet, so polyply's edge graph equals the bond graph",
                "reference: pmc/ref_genparams.expected_exclusions"]
@@ -31,6 +32,7 @@ def cases(tier):
                 if n == 5 and links != ["bb"]:
                     continue
                 yield {"variant": {"links": links, "nrexcl": nre, "names": ["A", "D"], "blocks": "ABCD"}, "n": n, "tier": tier}
+    yield from multi_cases(tier)
 
 
 def effective(natoms, edges, nrexcl, explicit):
@@ -99,6 +101,8 @@ def run_one(variant, spec, rg, stats, case1, program):
 
 
 def run_case(case):
+    if case.get("kind") in ("multi", "multi1"):
+        return check_multi(case)
     variant = case["variant"]
     spec = gp_cases.make_spec(variant)
     stats = {}
@@ -118,3 +122,115 @@ def run_case(case):
                 keys.append(json.dumps([variant["links"], variant["nrexcl"], rg, program], sort_keys=True))
     return dict(evals=evals, keys=keys, violations=viols, stats=stats,
                 sample={"links": variant["links"], "nrexcl": variant["nrexcl"], "n": case["n"], "inputs": evals})
+
+
+# ------------------------------------------------------------------ multi-residue (from_itp) fragments among ordinary residues
+M_ITP = """[ moleculetype ]
+M {nM}
+[ atoms ]
+1 X1 1 MA x1 1 0.1 10.0
+2 X2 1 MA x2 2 0.2 11.0
+3 Y1 2 MB y1 3 -0.3 12.0
+4 Y2 2 MB y2 3 0.0 12.0
+[ bonds ]
+1 2 1 0.21 2100
+2 3 1 0.22 2200
+3 4 1 0.23 2300
+"""
+M_ATOMS = [("MA", "x1"), ("MA", "x2"), ("MB", "y1"), ("MB", "y2")]
+M_BONDS = [(0, 1), (1, 2), (2, 3)]
+M_LINKS = """[ link ]
+[ atoms ]
+y1 {"resname": "MB"}
++BB {"resname": "A|D"}
+[ bonds ]
+y1 +BB 1 0.41 410
+[ link ]
+[ atoms ]
+BB {"resname": "A|D"}
++x1 {"resname": "MA"}
+[ bonds ]
+BB +x1 1 0.42 420
+[ link ]
+[ atoms ]
+y1 {"resname": "MB"}
++x1 {"resname": "MA"}
+[ bonds ]
+y1 +x1 1 0.43 430
+"""
+
+
+def multi_cases(tier):
+    vals = (1, 2, 3) if tier == "quick" else (0, 1, 2, 3)
+    for nM, nA, nD in itertools.product(vals, repeat=3):
+        for k in (1, 2, 3) if tier == "quick" else (1, 2, 3, 4):
+            seqs = [list(q) for q in itertools.product("ADM", repeat=k) if "M" in q]
+            yield dict(kind="multi", nre=dict(M=nM, A=nA, D=nD), seqs=seqs, tier=tier)
+
+
+def check_multi(case):
+    nre = case["nre"]
+    viols, evals, keys = [], 0, []
+    spec = gp_cases.make_spec({"links": ["bb"], "nrexcl": {"A": nre["A"], "D": nre["D"]}, "names": ["A", "D"], "blocks": "ABCD"})
+    ff_txt = F.render_ff(spec)
+    for seq in case["seqs"]:
+        # expected atom list, bonds, per-atom exclusion distance
+        atoms, bonds, resnames, from_itp, anchors = [], [], [], [], []     # anchors: (first backbone-ish atom, last linking atom) per token
+        for tok in seq:
+            off = len(atoms)
+            if tok == "M":
+                atoms += [nre["M"]] * 4
+                bonds += [(off + a, off + b) for a, b in M_BONDS]
+                resnames += ["MA", "MB"]
+                from_itp += [True, True]
+                anchors.append((off + 0, off + 2))
+            else:
+                blk = F.BLOCKS[tok]
+                names = [a[0] for a in blk["atoms"]]
+                atoms += [nre[tok]] * len(names)
+                for sec in ("bonds", "constraints"):
+                    for at, params, meta in blk["inter"].get(sec, []):
+                        bonds.append((off + names.index(at[0]), off + names.index(at[1])))
+                resnames.append(tok)
+                from_itp.append(False)
+                anchors.append((off, off))
+        for (f0, l0), (f1, l1) in zip(anchors, anchors[1:]):
+            bonds.append((l0, f1))
+        n = len(resnames)
+        rg = dict(n=n, edges=[[i, i + 1] for i in range(n - 1)], resids=[1 + i for i in range(n)], resnames=resnames,
+                  node_attrs={str(i): {"from_itp": "M"} for i in range(n) if from_itp[i]})
+        evals += 1
+        case1 = dict(kind="multi1", nre=nre, seqs=[seq])
+        try:
+            ff = H.parse_ff([("itp", M_ITP.replace("{nM}", str(nre["M"]))), ("ff", ff_txt), ("ff", M_LINKS)])
+            mm, _ = H.run_processors(ff, H.build_resgraph(rg))
+        except Exception as exc:  # noqa
+            viols.append(crash_violation(exc, case1, assertion="pipeline-accepts-valid-input", tags=["multi-residue-block"]))
+            continue
+        obs = H.mol_digest(mm.molecule)
+        kpos = {a["key"]: i for i, a in enumerate(obs["atoms"])}
+        explicit = [[kpos[a] for a in at] for at, _, _ in obs["inter"].get("exclusions", [])]
+        edges = {frozenset((kpos[a], kpos[b])) for a, b in obs["edges"]}
+        info = f" | sequence {seq} nrexcl {nre}"
+        if edges != {frozenset(b) for b in bonds} or len(obs["atoms"]) != len(atoms):
+            viols.append(dict(assertion="harness-multi-structure", tags=["harness"], message=f"edges {sorted(map(sorted, edges))} expected {sorted(bonds)}" + info,
+                              case=case1, detail={}))
+            continue
+        got = effective(len(atoms), edges, obs["nrexcl"], explicit)
+        dist = R.bond_distances(len(atoms), [list(b) for b in bonds])
+        want = {frozenset((a, b)) for a in range(len(atoms)) for b, d in dist[a].items() if a != b and 1 <= d <= max(atoms[a], atoms[b])}
+        if got != want and len(viols) < 20:
+            extra = sorted(map(sorted, got - want))[:4]
+            lost = sorted(map(sorted, want - got))[:4]
+            viols.append(dict(assertion="effective-exclusions-exact", tags=["multi-residue-block"],
+                              message=f"excluded but must not be: {extra}; must be excluded but are not: {lost}; molecule nrexcl={obs['nrexcl']}" + info,
+                              case=case1, detail={}))
+        used = {nre["M"]} | {nre[t] for t in seq if t != "M"}
+        if len(used) == 1:
+            if obs["nrexcl"] != nre["M"] and len(viols) < 20:
+                viols.append(dict(assertion="uniform-distance-kept", tags=["multi-residue-block"], message=f"nrexcl {obs['nrexcl']}" + info, case=case1, detail={}))
+            if explicit and len(viols) < 20:
+                viols.append(dict(assertion="no-exclusion-invented", tags=["multi-residue-block"], message=f"{len(explicit)} exclusion lines" + info, case=case1, detail={}))
+        elif len(seq) > 1:
+            keys.append(json.dumps([seq, nre], sort_keys=True))
+    return dict(evals=evals, keys=keys, violations=viols, stats={"inputs_multi": evals}, sample=dict(nre=nre, sequences=len(case["seqs"])))
